@@ -114,6 +114,26 @@ CLAIMS = {
              "Bounded in program shape (no Stage B).",
         note=BPFVC_TRUST + "; products/quotients of non-constants are uninterpreted in the first proof attempt, "
              "with the real operations as fallback; bounded in program shape"),
+    "C13": dict(
+        engine="pyvc", category="other", design_ref="DESIGN.md section 4 C13",
+        technique="contract-based deductive verification: the real source of EtherCat.roundtrip against "
+                  "payload/decoding spec functions, struct expanded byte-wise, z3",
+        text="For eight argument shapes (the format strings used by the package, up to four positional arguments), "
+             "all field values, raw data given as bytes of any length (including empty) or as any count, and all "
+             "response bytes: the queued payload is the little-endian encoding followed by zeros for a trailing "
+             "read-only format and the raw data, and the result is the response decoded with the same formats "
+             "plus the raw tail. Bounded in the shape of *args.",
+        note=PYVC_TRUST + "; asyncio.Queue/Future modelled as FIFO / response delivery; bounded in arity"),
+    "C30": dict(
+        engine="pyvc", category="other", design_ref="DESIGN.md section 4 C30",
+        technique="contract-based deductive verification: the real source of SyncGroup.update_devices against the "
+                  "working-counter clauses (16-bit counters), z3",
+        text="For frames with 0..3 datagrams, any counter positions and expected counts, any response bytes and "
+             "error count: the error counter rises by exactly the number of datagrams whose 16-bit working counter "
+             "differs from the expected count, both bytes of every counter are cleared, every other byte of the "
+             "response is what devices see and what is sent next. Bounded in the number of datagrams; the cycle "
+             "loop of SyncGroupBase.run is not under contract yet.",
+        note=PYVC_TRUST + "; devices under their own contracts; bounded in datagram count"),
 }
 
 NA = {
